@@ -417,6 +417,23 @@ def run_values(spec, rec, lib):
         v = jsonvals.rand_value(rng, 0, 5, 4) if rng.random() < 0.8 else jsonvals.rand_scalar(rng)
         if c07.has_pair(v):
             continue
+        if i % 4 == 1:
+            # envelope-SHAPED values whose signature map is indexed by hostile names: other spellings of a key (upper / mixed case,
+            # padded, prefixed), sometimes next to the key itself, plus junk - a file stores what was written, index names included
+            k = gkeys.key(rng.randrange(8))
+            e = {"signature": "%0128x" % rng.getrandbits(512)}
+            sps = gkeys.respellings(k.hex)
+            sigs = {}
+            for sp in rng.sample(sps, rng.randint(1, 3)):
+                sigs[sp] = dict(e)
+            if rng.random() < 0.5:
+                sigs[k.hex] = {"signature": "%0128x" % rng.getrandbits(512)}
+            if rng.random() < 0.5:
+                sigs[k.hex.upper()] = {"signature": "%0128x" % rng.getrandbits(512), "other_headers": "04ff"}
+            items = list(sigs.items())
+            rng.shuffle(items)
+            v = {"signatures": dict(items), "signed": v}
+            rec.count("envelope_shaped_values_with_hostile_index_names")
         case = {"kind": "value", "value": v}
         w = boundary.call(lib, C.write_metadata_to_file, v, fn)
         l = boundary.call(lib, C.load_metadata_from_file, fn) if w.accepted else w
